@@ -240,19 +240,37 @@ Definition find_child (name : bytes) (l : list info) : list info :=
 
 Definition is_subkey_child (i : info) : bool := bytes_eqb (i_desc i) (bs "GPG/PGP subkey").
 
+(* a reference entry whose last element is 1 is OPTIONAL: a revoked identity / subkey may be left
+   out; when it is listed, its attributes must be right all the same *)
+Definition ref_optional (idx : nat) (r : arg) : bool := Z.eqb (arg_Z (arg_nth idx r)) 1.
+Definition kid_has_fpr (r : arg) (k : info) : bool :=
+  match attr_lookup (bs "Fingerprint") (i_attrs k) with
+  | Some f => bytes_eqb f (hex_of true (arg_bytes (arg_nth 0 r)))
+  | None => false
+  end.
+
 Fixpoint check_subkeys (refs : list arg) (kids : list info) : option string :=
-  match refs, kids with
-  | [], [] => None
-  | r :: refs', k :: kids' =>
-      match key_attrs_ok r (i_attrs k) with
-      | Some e => Some e
-      | None =>
-          if sig_attrs_ok true (N_of_arg (arg_nth 4 r)) (i_attrs k) (arg_list (arg_nth 5 r))
-          then check_subkeys refs' kids'
-          else Some "subkey usage / creation date / expiry do not equal what its binding signature and the subkey encode"%string
+  match refs with
+  | [] =>
+      match kids with
+      | [] => None
+      | _ :: _ => Some "a subkey is listed that the key does not bind"%string
       end
-  | [], _ :: _ => Some "a subkey is listed that the key does not bind"%string
-  | _ :: _, [] => Some "a bound subkey is missing from the description"%string
+  | r :: refs' =>
+      match kids with
+      | [] => if ref_optional 6 r then check_subkeys refs' []
+              else Some "a bound subkey is missing from the description"%string
+      | k :: kids' =>
+          if ref_optional 6 r && negb (kid_has_fpr r k) then check_subkeys refs' kids
+          else
+            match key_attrs_ok r (i_attrs k) with
+            | Some e => Some e
+            | None =>
+                if sig_attrs_ok true (N_of_arg (arg_nth 4 r)) (i_attrs k) (arg_list (arg_nth 5 r))
+                then check_subkeys refs' kids'
+                else Some "subkey usage / creation date / expiry do not equal what its binding signature and the subkey encode"%string
+            end
+      end
   end.
 
 Fixpoint check_identities (key_created : N) (refs : list arg) (kids : list info) : option string :=
@@ -264,7 +282,8 @@ Fixpoint check_identities (key_created : N) (refs : list arg) (kids : list info)
           if sig_attrs_ok false key_created (i_attrs k) (arg_list (arg_nth 1 r))
           then check_identities key_created refs' kids
           else Some "identity usage / creation date / expiry do not equal what its self-signature and the key encode"%string
-      | [] => Some "an identity with a valid self-signature is missing from the description"%string
+      | [] => if ref_optional 2 r then check_identities key_created refs' kids
+              else Some "an identity with a valid self-signature is missing from the description"%string
       | _ => Some "an identity is listed more than once"%string
       end
   end.
@@ -281,7 +300,8 @@ Definition check_description (private : bool) (ref : arg) (i : info) : option st
   | None =>
       let id_kids := filter (fun k => negb (is_subkey_child k)) (i_children i) in
       let sub_kids := filter is_subkey_child (i_children i) in
-      if negb (Nat.eqb (length id_kids) (length ids)) then Some "the listed identities are not exactly those with a valid self-signature"%string
+      if negb (forallb (fun k => existsb (fun r => bytes_eqb (i_desc k) (arg_bytes (arg_nth 0 r))) ids) id_kids)
+      then Some "the listed identities are not exactly those with a valid self-signature"%string
       else match check_identities (N_of_arg (arg_nth 4 pr)) ids id_kids with
       | Some e => Some e
       | None => check_subkeys subs sub_kids
